@@ -8,3 +8,9 @@ func init() {
 		"C07-b (UNITS on the merge path): the same dimension rules over Writer.AddIndex (popN(nAdded), host remapping through get/add).",
 		func(p *Prog, r *Res) { ruleUnits(p, r, "C07-b units") })
 }
+
+func init() {
+	register("C01",
+		"C01-b (section-table agreement): each of the section constants of format.go is written by exactly one writeSection/writeLookup call in Finalize (sectionData: begin in NewWriter, end in Finalize), the writeSection helper begins the section, runs the body, ends the section and pads in that order on every successful path, and the Go type written into a section equals the type the reader decodes from it (readObjects target element type, sizeof argument of calculateOffset/objectCount; lookup sections are []uint32 on both sides). C01-c (lookup-key agreement): for each lookup section the stream fields read by the writer's comparator equal the fields the reader's consumers of that section read (StreamID; PacketInfoStart; FirstPacketTimeNS; LastPacketTimeNS), and the writer's comparators compare a's value against b's. The round-trip equality of payload, segmentation varints, time wrap and skip counters is value-level and NOT decided.",
+		ruleC01Sections)
+}
